@@ -369,6 +369,14 @@ def make_sync_handler(rec, hdef, bus):
                 elif k == 'raise':
                     ex = _RAISES.get(op[1] if op[1:] else '', PuppetError)('raised by %s' % hdef['id'])
                     rec.raised['a%d' % act] = ex
+                    if op[1:] and op[1] == 'chain':     # an exception with a __cause__ (raise ... from ...), itself raised while handling another one
+                        try:
+                            try:
+                                raise KeyError('innermost')
+                            except KeyError:
+                                raise ValueError('inner cause')
+                        except ValueError as inner:
+                            raise ex from inner
                     raise ex
                 elif k == 'ret':
                     ret = VALUES[op[1]]()
@@ -489,6 +497,14 @@ def make_async_handler(rec, hdef, bus):
                 elif k == 'raise':
                     ex = _RAISES.get(op[1] if op[1:] else '', PuppetError)('raised by %s' % hdef['id'])
                     rec.raised['a%d' % act] = ex
+                    if op[1:] and op[1] == 'chain':     # an exception with a __cause__ (raise ... from ...), itself raised while handling another one
+                        try:
+                            try:
+                                raise KeyError('innermost')
+                            except KeyError:
+                                raise ValueError('inner cause')
+                        except ValueError as inner:
+                            raise ex from inner
                     raise ex
                 elif k == 'ret':
                     ret = VALUES[op[1]]()
